@@ -77,7 +77,8 @@ func (m *MessageCertificateRequest13) Marshal() ([]byte, error) {
 		return nil, err
 	}
 	// Validate extensions length is in valid range <2..2^16-1>
-	if len(extensionsData) < 2 || len(extensionsData) > maxUint16 {
+	// (extensionsData carries the two-byte prefix of the vector in front)
+	if len(extensionsData) < 2 || len(extensionsData)-2 > maxUint16 {
 		return nil, dtlserrors.ErrInvalidExtensionsLength
 	}
 	builder.AddBytes(extensionsData)
